@@ -163,6 +163,7 @@ pub struct GenOpts {
     pub specials: bool,
     pub reexports: bool,
     pub symlinks: bool,
+    pub case_variants: bool,
 }
 
 impl Default for GenOpts {
@@ -182,6 +183,7 @@ impl Default for GenOpts {
             specials: true,
             reexports: false,
             symlinks: false,
+            case_variants: true,
         }
     }
 }
@@ -284,9 +286,12 @@ pub fn gen_world(r: &mut Rng, o: &GenOpts) -> World {
         if i >= pool.len() {
             name.push_str(&format!("{i}"));
         }
-        if o.max_files > 40 {
-            // wide worlds: spread the items, one or two per file
-            let _ = &name;
+        // occasionally a name that differs from an earlier one only by case
+        if o.case_variants && !names.is_empty() && kind != Kind::Const && r.chance(1, 10) {
+            let cand = r.pick(&names).to_uppercase();
+            if !names.contains(&cand) && !items.iter().any(|it: &GItem| it.name == cand) {
+                name = cand;
+            }
         }
         if o.same_names && !names.is_empty() && r.chance(1, 8) && kind != Kind::Const {
             name = r.pick(&names).clone();
@@ -631,7 +636,23 @@ impl World {
         let mut w = self.clone();
         let n = w.items.len();
         for _ in 0..8 {
-            match r.below(8) {
+            match r.below(9) {
+                8 if w.crates.len() > 1 => {
+                    // a whole crate disappears
+                    let c = r.below(w.crates.len() as u64) as usize;
+                    if !w.items.iter().any(|it| it.crate_ix != c) {
+                        continue;
+                    }
+                    let dir = w.crates[c].dir.clone();
+                    w.items.retain(|it| it.crate_ix != c);
+                    for it in w.items.iter_mut() {
+                        if it.crate_ix > c {
+                            it.crate_ix -= 1;
+                        }
+                    }
+                    w.crates.remove(c);
+                    return (w, format!("remove crate {dir}"));
+                }
                 7 if n > 0 => {
                     // rename to a name of the same length (the output keeps its size)
                     let i = r.below(n as u64) as usize;
@@ -987,13 +1008,13 @@ pub struct GenPoison {
 }
 
 pub fn gen_nested_poison(r: &mut Rng) -> GenPoison {
-    let bases = ["u64", "i64", "usize", "isize", "(u32, String)", "(u8,)"];
+    let bases = ["u64", "i64", "usize", "isize", "(u32, String)", "(u8,)", "std::primitive::u64", "core::primitive::isize"];
     let base = *r.pick(&bases[..]);
     let depth = r.below(6);
     let mut ty = base.to_string();
     let mut chain = vec![];
     for _ in 0..depth {
-        let w = r.below(7);
+        let w = r.below(12);
         ty = match w {
             0 => format!("Vec<{ty}>"),
             1 => format!("Option<{ty}>"),
@@ -1001,13 +1022,34 @@ pub fn gen_nested_poison(r: &mut Rng) -> GenPoison {
             3 => format!("Box<{ty}>"),
             4 => format!("Arc<{ty}>"),
             5 => format!("[{ty}; 3]"),
+            6 => format!("HashMap<{ty}, String>"),
+            7 => format!("Pair<String, {ty}>"),
+            8 => format!("&'static {ty}"),
+            9 => format!("Rc<RefCell<{ty}>>"),
+            10 => format!("std::vec::Vec<{ty}>"),
             _ => format!("Wrapper<{ty}>"),
         };
         chain.push(w);
     }
     let id = format!("gen/{}/{}", base.replace(' ', ""), chain.iter().map(|c| c.to_string()).collect::<String>());
-    let pos = r.below(7);
+    let pos = r.below(11);
     let (poison, skipped) = match pos {
+        7 => (
+            // last field, next to a defaulted one
+            format!("#[typeshare]\npub struct Pz {{ #[serde(default)] pub ok: u32, pub mid: String, #[serde(default)] pub big: {ty} }}\n"),
+            Some(format!("#[typeshare]\npub struct Pz {{ #[serde(default)] pub ok: u32, pub mid: String, #[serde(default, skip)] pub big: {ty} }}\n")),
+        ),
+        8 => (format!("#[typeshare(serialized_as = \"{ty}\")]\npub struct Pz(String);\n"), None),
+        9 => (
+            // generic item
+            format!("#[typeshare]\npub struct Pz<T> {{ pub ok: T, pub big: {ty} }}\n"),
+            Some(format!("#[typeshare]\npub struct Pz<T> {{ pub ok: T, #[typeshare(skip)] pub big: {ty} }}\n")),
+        ),
+        10 => (
+            // first field
+            format!("#[typeshare]\npub struct Pz {{ pub big: {ty}, pub ok: u32 }}\n"),
+            Some(format!("#[typeshare]\npub struct Pz {{ #[serde(skip)] pub big: {ty}, pub ok: u32 }}\n")),
+        ),
         0 => (
             format!("#[typeshare]\npub struct Pz {{ pub ok: u32, pub big: {ty} }}\n"),
             Some(format!("#[typeshare]\npub struct Pz {{ pub ok: u32, #[serde(skip)] pub big: {ty} }}\n")),
